@@ -9,8 +9,9 @@
                                    "ref":[{"idx":i,"lc":id,"hash":h},...],   what the consumer received from the SAME
                                    "reftable":[{"id","ecu","nr","start","stop"},...],   pipeline with channels that never fill,
                                    "caps":[...],"drop_at":k,...}}                     recorded in the same process
-     {"ev":"recv","idx":i,"lc":id,"hash":h}    one per message arriving at the last receiver (idx: position tag put into
-                                              the payload by the producer, hash: all fields except the lifecycle id)
+     {"ev":"recv","idx":i,"lc":id,"hash":h,"pos":j}   one per message arriving at the last receiver (idx: position tag
+                                              put into the payload by the producer, hash: all fields except the lifecycle
+                                              id, pos: search hint - index in ref of the entry with this tag, 0 = none)
      {"ev":"eos"}                              the last receiver saw the end of the stream (all senders gone)
      {"ev":"drop","after":k}                   the consumer dropped its receiver after k messages
      {"ev":"full_hits","n":k}                  hook counter: how often the helper took its Full branch (vacuity guard only)
@@ -55,8 +56,8 @@ Same(r) == r.idx = Cur.idx /\ r.hash = Cur.hash /\ Consistent(Cur.lc, r.lc)
 
 Recv == /\ Ev("recv") /\ phase = "running"
         /\ IF Hdr.sorted
-           THEN \E j \in pending : /\ Same(Hdr.ref[j])
-                                   /\ pending' = pending \ {j} /\ lcmap' = Bind(Cur.lc, Hdr.ref[j].lc)
+           THEN /\ Cur.pos \in pending /\ Same(Hdr.ref[Cur.pos])       \* (pos: the driver's search hint, verified here)
+                /\ pending' = pending \ {Cur.pos} /\ lcmap' = Bind(Cur.lc, Hdr.ref[Cur.pos].lc)
            ELSE /\ nrecv < Len(Hdr.ref) /\ Same(Hdr.ref[nrecv + 1])
                 /\ pending' = pending \ {nrecv + 1} /\ lcmap' = Bind(Cur.lc, Hdr.ref[nrecv + 1].lc)
         /\ nrecv' = nrecv + 1
